@@ -498,6 +498,263 @@ impl<'a, W: Write> Run<'a, W> {
         }
     }
 
+    // ---------------------------------------------------------------- pointwise oracles (any number of variables)
+    /// value of variable v under the assignment named by `seed` (seed 0 = all false, seed 1 = all true, else hashed)
+    fn pval(seed: u64, v: u32, over: &[(u32, bool)]) -> bool {
+        for &(w, b) in over {
+            if w == v {
+                return b;
+            }
+        }
+        match seed {
+            0 => false,
+            1 => true,
+            _ => {
+                let mut x = seed ^ ((v as u64).wrapping_mul(0x9E37_79B9_7F4A_7C15));
+                x ^= x >> 29;
+                x = x.wrapping_mul(0xBF58_476D_1CE4_E5B9);
+                x ^= x >> 32;
+                x & 1 == 1
+            }
+        }
+    }
+    /// evaluates a handle by walking the stored nodes; None if the walk leaves the table or does not end
+    fn eval_at(&self, r: Ref, seed: u64, over: &[(u32, bool)]) -> Option<bool> {
+        let cap = self.bdd.storage().capacity();
+        let mut cur = r;
+        let mut neg = false;
+        for _ in 0..100_000 {
+            if cur.is_negated() {
+                neg = !neg;
+            }
+            let i = cur.index();
+            if i == 1 {
+                return Some(!neg);
+            }
+            if i == 0 || (i as usize) >= cap {
+                return None;
+            }
+            let v = self.bdd.variable(i);
+            cur = if Self::pval(seed, v, over) { self.bdd.high(i) } else { self.bdd.low(i) };
+        }
+        None
+    }
+    fn arg_at(&self, tok: &str, seed: u64, over: &[(u32, bool)]) -> Option<bool> {
+        let r = self.fetch(tok)?;
+        self.eval_at(r, seed, over)
+    }
+    fn expr_at(&self, toks: &[&str], pos: &mut usize, seed: u64) -> Option<bool> {
+        let t = *toks.get(*pos)?;
+        *pos += 1;
+        match t {
+            "!" | "-" => self.expr_at(toks, pos, seed).map(|x| !x),
+            "&" | "|" | "^" => {
+                let a = self.expr_at(toks, pos, seed)?;
+                let b = self.expr_at(toks, pos, seed)?;
+                Some(match t {
+                    "&" => a & b,
+                    "|" => a | b,
+                    _ => a ^ b,
+                })
+            }
+            _ => self.arg_at(t.strip_prefix('t')?, seed, &[]),
+        }
+    }
+    /// the value the result of a handle-producing line must have under assignment `seed`, from its arguments' current values
+    fn expected_at(&self, t: &[&str], seed: u64) -> Option<(bool, &'static str)> {
+        let a = |i: usize| self.arg_at(t[i], seed, &[]);
+        let pu = |s: &str| -> u32 { s.parse().unwrap() };
+        Some(match t[0] {
+            "const" => (t[1] == "1", "C15"),
+            "var" => (Self::pval(seed, pu(t[1]), &[]), "C15"),
+            "node" => (if Self::pval(seed, pu(t[1]), &[]) { a(3)? } else { a(2)? }, "C15"),
+            "ite" => (if a(1)? { a(2)? } else { a(3)? }, "C02"),
+            "and" => (a(1)? & a(2)?, "C03"),
+            "or" => (a(1)? | a(2)?, "C03"),
+            "xor" => (a(1)? ^ a(2)?, "C03"),
+            "eq" => (!(a(1)? ^ a(2)?), "C03"),
+            "imply" => (!a(1)? | a(2)?, "C03"),
+            "not" => (!a(1)?, "C03"),
+            "andmany" | "ormany" => {
+                let k: usize = t[1].parse().unwrap();
+                let mut acc = t[0] == "andmany";
+                for i in 0..k {
+                    let x = a(2 + i)?;
+                    acc = if t[0] == "andmany" { acc & x } else { acc | x };
+                }
+                (acc, "C03")
+            }
+            "cube" | "clause" => {
+                let k: usize = t[1].parse().unwrap();
+                let mut acc = t[0] == "cube";
+                for i in 0..k {
+                    let l: i32 = t[2 + i].parse().unwrap();
+                    let x = Self::pval(seed, l.unsigned_abs(), &[]) == (l > 0);
+                    acc = if t[0] == "cube" { acc & x } else { acc | x };
+                }
+                (acc, "C15")
+            }
+            "expr" => {
+                let mut pos = 1;
+                (self.expr_at(t, &mut pos, seed)?, "C03")
+            }
+            "subst" => (self.arg_at(t[1], seed, &[(pu(t[2]), t[3] == "1")])?, "C08"),
+            "substm" => {
+                let k: usize = t[2].parse().unwrap();
+                let over: Vec<(u32, bool)> = (0..k).map(|i| (pu(t[3 + 2 * i]), t[4 + 2 * i] == "1")).collect();
+                (self.arg_at(t[1], seed, &over)?, "C08")
+            }
+            "cofcube" => {
+                let k: usize = t[2].parse().unwrap();
+                let over: Vec<(u32, bool)> = (0..k).map(|i| { let l: i32 = t[3 + i].parse().unwrap(); (l.unsigned_abs(), l > 0) }).collect();
+                (self.arg_at(t[1], seed, &over)?, "C08")
+            }
+            "compose" => {
+                let g = a(3)?;
+                (self.arg_at(t[1], seed, &[(pu(t[2]), g)])?, "C09")
+            }
+            "low" | "high" => {
+                let f = self.fetch(t[1])?;
+                let v = self.bdd.variable(f.index());
+                (self.arg_at(t[1], seed, &[(v, t[0] == "high")])?, "C08")
+            }
+            "topcof0" | "topcof1" => (self.arg_at(t[1], seed, &[(pu(t[2]), t[0] == "topcof1")])?, "C08"),
+            _ => return None,
+        })
+    }
+    const POINTS: [u64; 14] = [0, 1, 2, 3, 5, 7, 11, 13, 0xA5A5, 0x5A5A, 0xFFFF_0000, 0x1234_5678_9ABC, 0xDEAD_BEEF, 0x0F0F_F0F0_1111];
+
+    /// pointwise checks of a handle-producing line (used when the truth-table oracles cannot follow: more than `nvars` variables)
+    fn point_check_reg(&mut self, t: &[&str], r: Ref) {
+        for &seed in Self::POINTS.iter() {
+            let got = match self.eval_at(r, seed, &[]) {
+                Some(x) => x,
+                None => {
+                    self.oracle_fail("C04", &format!("{} returned {} which does not evaluate (dangling or cyclic diagram)", t.join(" "), r));
+                    return;
+                }
+            };
+            if let Some((want, prop)) = self.expected_at(t, seed) {
+                if want != got {
+                    self.oracle_fail(prop, &format!("{} returned {}: value {} under assignment #{:x}, expected {}", t.join(" "), r, got, seed, want));
+                    if self.gcs_done > 0 {
+                        self.oracle_fail("C05", &format!("after {} collection(s): {} returned {}: value {} under assignment #{:x}, expected {}", self.gcs_done, t.join(" "), r, got, seed, want));
+                    }
+                    return;
+                }
+            }
+            // constrain / restrict agree with f wherever g holds
+            if t[0] == "constrain" || t[0] == "restrict" {
+                if let (Some(f), Some(g)) = (self.arg_at(t[1], seed, &[]), self.arg_at(t[2], seed, &[])) {
+                    if g && f != got {
+                        self.oracle_fail(if t[0] == "constrain" { "C10" } else { "C11" }, &format!("{} returned {}: differs from f at assignment #{:x} where g holds", t.join(" "), r, seed));
+                        return;
+                    }
+                }
+            }
+        }
+    }
+
+    /// pointwise checks of query answers, for any number of variables
+    fn point_check_query(&mut self, t: &[&str], val: &str) {
+        let parse_path = |p: &str| -> Vec<i32> { p.trim_matches(|ch| ch == '[' || ch == ']').split(',').filter(|s| !s.is_empty()).map(|s| s.parse().unwrap()).collect() };
+        match t[0] {
+            "onesat" => {
+                let Some(f) = self.fetch(t[1]) else { return };
+                if val == "none" {
+                    if f != self.bdd.zero {
+                        self.oracle_fail("C14", &format!("{} = none but the handle {} is not the constant false", t.join(" "), f));
+                    }
+                    return;
+                }
+                let lits = parse_path(val);
+                if !lits.windows(2).all(|w| w[0].unsigned_abs() < w[1].unsigned_abs()) || lits.iter().any(|&l| l == 0) {
+                    self.oracle_fail("C14", &format!("{} = {} is not strictly increasing", t.join(" "), val));
+                    return;
+                }
+                let over: Vec<(u32, bool)> = lits.iter().map(|&l| (l.unsigned_abs(), l > 0)).collect();
+                for &seed in Self::POINTS.iter() {
+                    if self.eval_at(f, seed, &over) != Some(true) {
+                        self.oracle_fail("C14", &format!("{} = {}: the completion #{:x} does not satisfy the function", t.join(" "), val, seed));
+                        return;
+                    }
+                }
+            }
+            "paths" => {
+                let Some(f) = self.fetch(t[1]) else { return };
+                if val == "nopaths" {
+                    if f != self.bdd.zero {
+                        self.oracle_fail("C14", &format!("{} yields no path but the handle {} is not the constant false", t.join(" "), f));
+                    }
+                    return;
+                }
+                let paths: Vec<Vec<i32>> = val.split(' ').take(3000).map(parse_path).collect();
+                for p in &paths {
+                    if !p.windows(2).all(|w| w[0].unsigned_abs() < w[1].unsigned_abs()) || p.iter().any(|&l| l == 0) {
+                        self.oracle_fail("C14", &format!("{}: path {:?} is not an increasing cube", t.join(" "), p));
+                        return;
+                    }
+                    let over: Vec<(u32, bool)> = p.iter().map(|&l| (l.unsigned_abs(), l > 0)).collect();
+                    for &seed in [0u64, 1, 0xA5A5].iter() {
+                        if self.eval_at(f, seed, &over) != Some(true) {
+                            self.oracle_fail("C14", &format!("{}: a completion of path {:?} does not satisfy the function", t.join(" "), p));
+                            return;
+                        }
+                    }
+                }
+                // every sampled assignment satisfying f is covered by exactly one path
+                if paths.len() < 3000 {
+                    for &seed in Self::POINTS.iter() {
+                        let fv = self.eval_at(f, seed, &[]);
+                        let n = paths.iter().filter(|p| p.iter().all(|&l| Self::pval(seed, l.unsigned_abs(), &[]) == (l > 0))).count();
+                        if fv == Some(true) && n != 1 || fv == Some(false) && n != 0 {
+                            self.oracle_fail("C14", &format!("{}: assignment #{:x} (f = {:?}) is covered by {} paths", t.join(" "), seed, fv, n));
+                            return;
+                        }
+                    }
+                }
+            }
+            "itec" => {
+                let want = match val {
+                    "true" => true,
+                    "false" => false,
+                    _ => return,
+                };
+                for &seed in Self::POINTS.iter() {
+                    if let (Some(f), Some(g), Some(h)) = (self.arg_at(t[1], seed, &[]), self.arg_at(t[2], seed, &[]), self.arg_at(t[3], seed, &[])) {
+                        if (if f { g } else { h }) != want {
+                            self.oracle_fail("C12", &format!("{} answered {} but ITE is {} under assignment #{:x}", t.join(" "), val, !want, seed));
+                            return;
+                        }
+                    }
+                }
+            }
+            "implies" => {
+                if val != "1" {
+                    return;
+                }
+                for &seed in Self::POINTS.iter() {
+                    if let (Some(f), Some(g)) = (self.arg_at(t[1], seed, &[]), self.arg_at(t[2], seed, &[])) {
+                        if f && !g {
+                            self.oracle_fail("C12", &format!("{} answered true but f holds and g does not under assignment #{:x}", t.join(" "), seed));
+                            return;
+                        }
+                    }
+                }
+            }
+            "size" => {
+                if let Some(fr) = self.fetch(t[1]) {
+                    let recount = self.count_reachable(fr);
+                    if val != recount.to_string() {
+                        self.oracle_fail("C04", &format!("size({}) = {}, but {} nodes are reachable", fr, val, recount));
+                        self.oracle_fail("C07", &format!("size({}) = {}, but {} nodes are reachable", fr, val, recount));
+                    }
+                }
+            }
+            _ => {}
+        }
+    }
+
     /// Is every variable of r's diagram strictly greater than v (or r terminal)?
     fn below(&self, v: u32, r: Ref) -> bool {
         r.index() == 1 || v < self.bdd.variable(r.index())
@@ -792,7 +1049,10 @@ impl<'a, W: Write> Run<'a, W> {
 
     fn after_reg_checks(&mut self, t: &[&str], r: Ref, got: Option<TT>) {
         self.check_structure(r);
-        let Some(got) = got else { return };
+        let Some(got) = got else {
+            self.point_check_reg(t, r);
+            return;
+        };
         if let Some((want, prop)) = self.expected(t) {
             if want != got {
                 self.oracle_fail(prop, &format!("{} returned {} meaning {:x}, expected {:x}", t.join(" "), r, got, want));
@@ -1110,6 +1370,9 @@ impl<'a, W: Write> Run<'a, W> {
                     if self.oracle {
                         self.oracle_evals += 1;
                         self.query_oracle(&t, &v);
+                        if t.len() > 1 && self.fetch_tt(t[1]).is_none() {
+                            self.point_check_query(&t, &v);
+                        }
                         let after = self.fingerprint();
                         if Some(after) != before {
                             self.oracle_fail("C16", &format!("query {} changed the node store: {:?} -> {:?}", t.join(" "), before.unwrap(), after));
